@@ -155,7 +155,8 @@ def c13_unit(unit):
     pts = [k * dt for k in range(N + 1)]
     dtype = torch.float64
     with torch.no_grad():
-        prog, y0, bm = cell_setup(cell, dtype, entropy=unit['entropy'], t1=max(T, 1.0))
+        # many batch rows: a rounding-level discrepancy in the restart state must have a chance to show in some row
+        prog, y0, bm = cell_setup(cell, dtype, entropy=unit['entropy'], t1=max(T, 1.0), batch=unit.get('batch', 24))
         ts_all = torch.tensor(pts, dtype=dtype)
         ys_one, extra_one = torchsde.sdeint(prog, y0, ts_all, bm=bm, method=method, dt=dt, options=dict(opts),
                                             extra=True)
